@@ -651,7 +651,7 @@ func run(t failer, c Case, class string) {
 
 func TestGosub(t *testing.T) {
 	g := gosub.Gen()
-	vk.R.Rapid(t, 1, 80, 4000, func(t *rapid.T) {
+	vk.R.Rapid(t, 1, 80, 2400, func(t *rapid.T) {
 		p := g.Draw(t, "prog")
 		run(t, Case{Files: []SrcFile{{"main.xgo", p.Source()}}, GoCompat: true}, "src=gosub")
 	})
